@@ -85,6 +85,7 @@ type c11stream struct {
 	inWriteSince   atomic.Int64
 	readAfterErr   atomic.Bool // the Read in progress was started after an error was observed on this connection
 	writeAfterErr  atomic.Bool
+	noOverflow     bool         // the receiving mux may still be blocked: no overflow is bound to happen
 	recvAtFirstErr atomic.Int64 // frames received before the first error (-1: no error seen)
 	firstErr       atomic.Value // string
 }
@@ -139,6 +140,12 @@ type c11run struct {
 	syncConn  int      // index of the barrier connection (0 = none)
 	writeTrig map[int64]chan struct{}
 	stale     []*staleSet
+
+	opts        [2]C11MuxOpt
+	pending     [2]atomic.Bool  // the mux is blocked and Unblock has not been called yet
+	towards     [2]atomic.Int64 // Writes started towards mux 0 / 1
+	releaseOnce sync.Once
+	releaseWG   sync.WaitGroup
 
 	eventsWaiting atomic.Int32 // failure / stale-close goroutines still waiting for their trigger
 	eventsRunning atomic.Int32 // ... applying their event
@@ -222,12 +229,42 @@ func (r *c11run) snapshotActivity() {
 func (r *c11run) markFailure() {
 	r.globalFailure.Store(true)
 	r.tick()
+	// a mux whose reader is still blocked (WithBlockedRead, no Unblock yet) cannot notice that the
+	// peer or the trunk is gone; that is what the option is for. Now is "after the Close": unblock
+	// it, or - if the case never unblocks it - close it, so that its own calls have to return.
+	r.releaseOnce.Do(func() {
+		r.releaseWG.Add(1)
+		go func() { defer r.releaseWG.Done(); r.releaseBlocked() }()
+	})
+}
+
+func (r *c11run) unblock(sd int) {
+	if r.pending[sd].CompareAndSwap(true, false) {
+		r.p.m[sd].Unblock()
+		r.tick()
+	}
+}
+
+func (r *c11run) releaseBlocked() {
+	defer r.recoverPanic("release of a blocked mux")
+	for sd := 0; sd < 2; sd++ {
+		if !r.pending[sd].Load() {
+			continue
+		}
+		if r.opts[sd].Unblock == "never" {
+			r.addClass("closed_while_blocked_never_unblocked")
+			r.closeMux(sd, 1, 1, "blocked mux")
+			continue
+		}
+		r.addClass("unblocked_after_close")
+		r.unblock(sd)
+	}
 }
 
 // overflowArmed: this stream's writer sends more frames than the queue holds without waiting
 // for the (stalled) reader.
 func (s *c11stream) overflowArmed(qlen int) bool {
-	return s.spec.NoCredits && s.spec.Stalled && len(s.frames) > qlen
+	return s.spec.NoCredits && s.spec.Stalled && len(s.frames) > qlen && !s.noOverflow
 }
 
 func expectedFrames(sizes []int) []frameRef {
@@ -258,8 +295,16 @@ func runC11Mux(c C11Case) (ev.Outcome, bool) {
 			if side != f.Side {
 				return raw
 			}
-			cut = &cutConn{Conn: raw, wLimit: -1, rLimit: -1, half: f.Half}
-			cut.armed.Store(len(c.Reopen) == 0)
+			cut = &cutConn{Conn: raw, wLimit: -1, rLimit: -1, half: f.Half, armedC: make(chan struct{}), closedC: make(chan struct{})}
+			// the failure must not strike before the ids are open (Open on a mux that has failed
+			// already is outside the property): reads wait until the case is set up, unless the
+			// prologue needs the trunk (then they pass uncounted until then)
+			cut.gate = true
+			for _, ro := range c.Reopen {
+				if ro.OldFrames > 0 {
+					cut.gate = false
+				}
+			}
 			if f.Kind == "cut_write" {
 				cut.wLimit = f.CutAfter
 			} else {
@@ -293,8 +338,25 @@ func runC11Mux(c C11Case) (ev.Outcome, bool) {
 			r.ids = append(r.ids, id)
 		}
 	}
-	r.p = connectPair(c.QLen, c.Blocked, r.ids, wrap)
+	r.opts = c.Opts
+	if c.Blocked {
+		for sd := 0; sd < 2; sd++ {
+			r.opts[sd].Blocked, r.opts[sd].Unblock = true, "before_traffic"
+		}
+	}
+	po := pairOpts{qlen: [2]int{c.QLen, c.QLen}, ids: r.ids, wrap: wrap}
+	for sd := 0; sd < 2; sd++ {
+		po.blocked[sd] = r.opts[sd].Blocked
+		po.omitQLen[sd] = r.opts[sd].OmitQLen
+		r.pending[sd].Store(r.opts[sd].late())
+	}
+	r.p = connectPairOpts(po)
 	defer r.p.shutdown()
+	for sd := 0; sd < 2; sd++ {
+		if r.opts[sd].Blocked && !r.opts[sd].late() {
+			r.p.m[sd].Unblock()
+		}
+	}
 	for s := 0; s < 2; s++ {
 		r.observed[s] = make([]atomic.Bool, len(r.ids))
 	}
@@ -327,9 +389,6 @@ func runC11Mux(c C11Case) (ev.Outcome, bool) {
 	if !r.prologue() {
 		return r.verdict(stacks())
 	}
-	if cut != nil {
-		cut.armed.Store(true)
-	}
 
 	var wg sync.WaitGroup
 	var writersWG sync.WaitGroup
@@ -340,10 +399,14 @@ func runC11Mux(c C11Case) (ev.Outcome, bool) {
 			frames: expectedFrames(sp.Sizes), cred: newCredits(c.QLen),
 			writerExitC: make(chan struct{}), starvedC: make(chan struct{})}
 		s.recvAtFirstErr.Store(-1)
+		s.noOverflow = r.opts[s.rdSide].late()
 		r.streams = append(r.streams, s)
 	}
 	if !hookTrigger && f.AfterWrites == 0 {
 		r.trigOnce.Do(func() { close(r.trigC) })
+	}
+	if cut != nil {
+		cut.arm()
 	}
 	for _, s := range r.streams {
 		s := s
@@ -368,6 +431,23 @@ func runC11Mux(c C11Case) (ev.Outcome, bool) {
 		}()
 	}
 	go func() { writersWG.Wait(); close(r.writersDoneC); r.tick() }()
+
+	// Unblock of a mux that is unblocked after some writes of its peer
+	started := time.Now()
+	for sd := 0; sd < 2; sd++ {
+		if !r.opts[sd].late() || r.opts[sd].held() {
+			continue
+		}
+		go func(sd int) {
+			defer r.recoverPanic("Unblock")
+			o := r.opts[sd]
+			limit := time.Duration(max(1, o.DelayMs)) * time.Millisecond
+			for r.pending[sd].Load() && r.towards[sd].Load() < int64(o.AfterWrites) && time.Since(started) < limit {
+				time.Sleep(100 * time.Microsecond)
+			}
+			r.unblock(sd)
+		}(sd)
+	}
 
 	// the failure event (and the repeated closes of stale handles during the traffic)
 	primDone := make(chan struct{})
@@ -467,6 +547,10 @@ func runC11Mux(c C11Case) (ev.Outcome, bool) {
 		if r.hang == "" {
 			r.drainStale()
 		}
+	}
+	if r.hang == "" {
+		// the release of a blocked mux (Unblock or Close) has to have returned as well
+		r.timed("Unblock/Close of the mux that was still blocked", func() { r.releaseWG.Wait() })
 	}
 	if r.hang != "" && stackDump == "" {
 		stackDump = stacks()
@@ -576,8 +660,8 @@ func (r *c11run) quiescent(primDone chan struct{}) bool {
 		if !s.writerExited.Load() {
 			return false
 		}
-		if !s.readerExited.Load() && (s.received.Load() < s.written.Load() || s.inReadSince.Load() == 0) {
-			return false
+		if !s.readerExited.Load() && ((s.received.Load() < s.written.Load() && !r.pending[s.rdSide].Load()) || s.inReadSince.Load() == 0) {
+			return false // (nothing is delivered to a mux that is still blocked)
 		}
 	}
 	return true
@@ -653,6 +737,7 @@ func (r *c11run) writer(s *c11stream, hookTrigger bool) {
 		if useCredits {
 			s.cred.acquire(nf)
 		}
+		r.towards[s.rdSide].Add(1)
 		wn := r.writeStarts.Add(1)
 		if !hookTrigger && wn == int64(r.c.Failure.AfterWrites) {
 			r.trigOnce.Do(func() { close(r.trigC) })
@@ -803,6 +888,9 @@ func (r *c11run) closeMux(side, closers, repeat int, what string) {
 		r.firstClose = cl
 	}
 	r.errMu.Unlock()
+	if r.pending[side].Load() {
+		r.addClass("close_before_unblock")
+	}
 	y := 1 - side
 	var aX int32
 	var sX int64
@@ -946,9 +1034,19 @@ func (r *c11run) verdict(stackDump string) (ev.Outcome, bool) {
 	if c.Failure.HookPoint != "" && verifhook.Enabled {
 		add("hook_trigger")
 	}
+	for sd := 0; sd < 2; sd++ {
+		if r.opts[sd].Blocked {
+			add("blocked_read:" + r.opts[sd].Unblock)
+		}
+		if r.opts[sd].OmitQLen {
+			add("default_queue_length_option_omitted")
+		}
+	}
+	r.failMu.Lock()
 	for k := range r.classes {
 		add(k)
 	}
+	r.failMu.Unlock()
 	drained := false
 	for _, s := range r.streams {
 		if a := s.recvAtFirstErr.Load(); a >= 0 && s.received.Load() > a {
@@ -987,9 +1085,11 @@ func (r *c11run) verdict(stackDump string) (ev.Outcome, bool) {
 		}
 	}
 
+	r.failMu.Lock()
 	for k := range r.lenient {
 		o.Lenient = append(o.Lenient, k)
 	}
+	r.failMu.Unlock()
 	o.Classes = cls
 	o.NonTrivial = r.nonTrivial.Load()
 	hist := func() map[string]any {
